@@ -183,7 +183,7 @@ def rand_string(r, expression_capable=False, minlen=None, maxlen=None, multiline
         elif k < 0.9:
             s = ""
         elif k < 0.95:
-            s = r.choice(["say \"hi\"", "it's", "d'accord", 'a "quoted" word'])
+            s = r.choice(["say \"hi\"", "it's", "d'accord", 'a "quoted" word', "'abc'", '"abc"', "'", '"', "'a' and 'b'", '"x" or "y"', "''"])
         else:
             s = "".join(chr(r.choice([r.randint(0x21, 0x7e), r.randint(0xa1, 0x24f), r.randint(0x400, 0x4ff),
                                       r.randint(0x4e00, 0x4eff), r.randint(0x1f300, 0x1f3ff)])) for _ in range(r.randint(1, 8)))
@@ -658,9 +658,14 @@ def place_comments(nodes, r, p_trailing=0.7, p_above=0.7):
         for nd in root.walk():
             if r.random() < p_above:
                 cs = []
-                for _ in range(r.choice([1, 1, 2])):
-                    k = r.choice(["#", "#", "/*"])
-                    cs.append(text(k, multiline=(k == "/*" and r.random() < 0.4)))
+                if r.random() < 0.2:
+                    # banner style: the same separator line above and below a title (identical comment texts)
+                    sep = r.choice(["# ------", "# ======", "/* ---- */", "# TODO"])
+                    cs = [sep, text("#"), sep] if r.random() < 0.7 else [sep, sep]
+                else:
+                    for _ in range(r.choice([1, 1, 2])):
+                        k = r.choice(["#", "#", "/*"])
+                        cs.append(text(k, multiline=(k == "/*" and r.random() < 0.4)))
                 nd.above = cs
                 for c in cs:
                     placed.append((c, "above", nd.type, id(nd)))
